@@ -87,13 +87,20 @@ class Run:
         return "+".join(k["id"] for k in self.open_findings())
 
     # ---------------------------------------------------------------- harness
-    def build_harness(self, race=False):
-        key = "race" if race else "plain"
+    def build_harness(self, race=False, driver=None):
+        """one binary per driver: only that driver's reg_<driver>.go is kept, so a
+        package of another property that does not compile cannot break this check"""
+        driver = driver or self.pid.lower()
+        key = ("race-" if race else "plain-") + driver
         if key in self.bin:
             return self.bin[key]
-        src = os.path.join(self.scratch, "harness-src")
+        src = os.path.join(self.scratch, "harness-src-" + driver)
         if not os.path.isdir(src):
             shutil.copytree(HARNESS, src)
+            regdir = os.path.join(src, "cmd", "harness")
+            for f in os.listdir(regdir):
+                if f.startswith("reg_") and f != "reg_%s.go" % driver:
+                    os.remove(os.path.join(regdir, f))
             gm = open(os.path.join(src, "go.mod")).read()
             gm = re.sub(r"replace github.com/whatap/golib => .*", "replace github.com/whatap/golib => " + REPO, gm)
             open(os.path.join(src, "go.mod"), "w").write(gm)
@@ -114,7 +121,7 @@ class Run:
 
     def drive(self, driver, gen=None, case=None, args=None, race=False, timeout=1800, outdir=None, tier=None, seed=None, env=None):
         """run one harness driver against the real code; returns (outdir, meta)"""
-        binp = self.build_harness(race)
+        binp = self.build_harness(race, driver)
         out = outdir or self.sub("drive-" + driver)
         a = dict(args or {})
         if self.kf_arg():
